@@ -14,7 +14,7 @@ HERE = os.path.dirname(os.path.dirname(os.path.abspath(__file__)))
 if HERE not in sys.path:
     sys.path.insert(0, HERE)
 
-from sa.selftest_mutants import FIRE, QUIET  # noqa: E402
+from sa.selftest_mutants import FIRE, QUIET, QUIET_PATCH  # noqa: E402
 
 
 def _failing(ctx, rules):
@@ -41,6 +41,14 @@ def _run_one(job):
             r = subprocess.run(['patch', '-p1', '-s', '-d', d, '-i', old], capture_output=True, text=True)
             if r.returncode != 0:
                 return {'id': mid, 'kind': kind, 'status': 'not-applicable', 'why': 'patch does not apply to the current source'}
+            for ffn, fold, fnew in (new or []):
+                fp = os.path.join(d, 'diskcache', ffn)
+                with open(fp) as f:
+                    fs = f.read()
+                if fold not in fs:
+                    return {'id': mid, 'kind': kind, 'status': 'not-applicable', 'why': 'fix-up pattern not found'}
+                with open(fp, 'w') as f:
+                    f.write(fs.replace(fold, fnew))
         else:
             p = os.path.join(d, 'diskcache', fn)
             with open(p) as f:
@@ -106,8 +114,12 @@ def run(rule_filter=None, jobs=None, repo=None, quiet_rules=None):
         if rule_filter is not None and not (set(rules) & set(rule_filter)):
             continue
         needed_now = [r for r in rules if r in RULES]
-        work.append(('fire', 'seed:' + meta['id'], 'PATCH', os.path.join(os.path.dirname(mp), 'patch.diff'), '',
+        work.append(('fire', 'seed:' + meta['id'], 'PATCH', os.path.join(os.path.dirname(mp), 'patch.diff'), None,
                      needed_now, baseline, repo, False))
+    for mid, seed_id, fixups in QUIET_PATCH:
+        pf = os.path.join(HERE, 'seeded', seed_id, 'patch.diff')
+        if os.path.exists(pf):
+            work.append(('quiet', mid, 'PATCH', pf, fixups, qrules, baseline, repo, False))
     for m in QUIET:
         mid, fn, old, new = m[:4]
         work.append(('quiet', mid, fn, old, new, qrules, baseline, repo, 'helper' in mid or (len(m) > 4 and m[4] == 'all')))
